@@ -58,6 +58,18 @@ fn set_time(t: u64) {
 
 const T0: u64 = 1_700_000_000;
 
+/// Scratch directories live on a memory file system when there is one (the cases
+/// create thousands of small git objects).
+fn scratch() -> tempfile::TempDir {
+    let shm = std::path::Path::new("/dev/shm");
+    if shm.is_dir() {
+        if let Ok(d) = tempfile::Builder::new().prefix("hw-c09-").tempdir_in(shm) {
+            return d;
+        }
+    }
+    tempfile::tempdir().unwrap()
+}
+
 fn copy_dir(src: &std::path::Path, dst: &std::path::Path) {
     std::fs::create_dir_all(dst).unwrap();
     for e in std::fs::read_dir(src).unwrap() {
@@ -74,8 +86,8 @@ fn copy_dir(src: &std::path::Path, dst: &std::path::Path) {
 impl World {
     fn new() -> Self {
         set_time(T0);
-        let alice = Node::new(tempfile::tempdir().unwrap(), MockSigner::from_seed([!0; 32]), "alice");
-        let mut bob = Node::new(tempfile::tempdir().unwrap(), MockSigner::from_seed([!1; 32]), "bob");
+        let alice = Node::new(scratch(), MockSigner::from_seed([!0; 32]), "alice");
+        let mut bob = Node::new(scratch(), MockSigner::from_seed([!1; 32]), "bob");
         let arepo = alice.project();
         let rid = arepo.id;
         // two commits of the fixture's default branch: revisions go from `base` to `head`,
@@ -102,7 +114,7 @@ struct CaseRepos {
 
 impl CaseRepos {
     fn new(w: &World) -> Self {
-        let tmp = tempfile::tempdir().unwrap();
+        let tmp = scratch();
         let a = tmp.path().join("alice");
         let b = tmp.path().join("bob");
         copy_dir(&w.apath, &a);
@@ -659,8 +671,7 @@ fn res_term(r: &Res, ok: impl FnOnce(&Value) -> String) -> String {
     }
 }
 
-struct CaseCtx<'w> {
-    w: &'w World,
+struct CaseCtx {
     dict: Dict,
     steps: Vec<(Step, Vec<QObs>)>,
     stale: BTreeSet<String>,
@@ -669,7 +680,7 @@ struct CaseCtx<'w> {
     clock: u64,
 }
 
-impl CaseCtx<'_> {
+impl CaseCtx {
     fn tick(&mut self) -> u64 {
         self.clock += 1;
         set_time(T0 + self.clock);
@@ -875,69 +886,60 @@ where
     let revv = &pv["revisions"][rev.to_string()];
     let me = signer.public_key().to_string();
     let e = |x: Result<_, patch::Error>| x.map(|_| ()).map_err(|e| e.to_string());
-    let choice = r.below(100);
-    if choice < 22 {
-        ("comment".into(), e(p.comment(rev, format!("c{n}"), None, None, vec![], signer)))
-    } else if choice < 34 {
-        // redact one of my comments on that revision
-        let mine: Vec<String> = revv["discussion"]["comments"].as_object().unwrap().iter()
-            .filter(|(_, c)| !c.is_null() && c["author"] == json!(me)).map(|(k, _)| k.clone()).collect();
-        if mine.is_empty() {
-            ("comment".into(), e(p.comment(rev, format!("c{n}"), None, None, vec![], signer)))
-        } else {
-            ("comment-redact".into(), e(p.comment_redact(rev, oid_of(r.pick(&mine)), signer)))
+    // what is possible on this revision
+    let my_comments: Vec<String> = revv["discussion"]["comments"].as_object().unwrap().iter()
+        .filter(|(_, c)| !c.is_null() && c["author"] == json!(me)).map(|(k, _)| k.clone()).collect();
+    let reviews: Vec<String> = revv["reviews"].as_object().unwrap().values().map(|rv| rv["id"].as_str().unwrap().to_string()).collect();
+    let mut my_review_things: Vec<(String, Option<String>)> = vec![];
+    for rv in revv["reviews"].as_object().unwrap().values() {
+        let rid = rv["id"].as_str().unwrap().to_string();
+        if rv["author"]["id"].as_str().unwrap().ends_with(&me) {
+            my_review_things.push((rid.clone(), None));
         }
-    } else if choice < 46 {
-        let v = if r.bool() { Verdict::Accept } else { Verdict::Reject };
-        ("review".into(), e(p.review(rev, Some(v), Some(format!("s{n}")), vec![], signer).map(|_| git::Oid::from_str(pid).unwrap())))
-    } else if choice < 58 {
-        // comment on an existing review of that revision (any author)
-        let reviews: Vec<String> = revv["reviews"].as_object().unwrap().values().map(|rv| rv["id"].as_str().unwrap().to_string()).collect();
-        if reviews.is_empty() {
-            ("review".into(), e(p.review(rev, Some(Verdict::Accept), None, vec![], signer).map(|_| git::Oid::from_str(pid).unwrap())))
-        } else {
+        for (cid, c) in rv["comments"]["comments"].as_object().unwrap() {
+            if !c.is_null() && c["author"] == json!(me) {
+                my_review_things.push((rid.clone(), Some(cid.clone())));
+            }
+        }
+    }
+    // non-root revisions of mine (redacting the root is refused)
+    let my_revs: Vec<String> = revs.iter().filter(|x| *x != pid && pv["revisions"][*x]["author"]["id"].as_str().unwrap().ends_with(&me)).cloned().collect();
+    let mut menu: Vec<(&str, u64)> = vec![("comment", 3), ("review", 2), ("revision", 2), ("lifecycle", 2), ("edit", 1)];
+    if !my_comments.is_empty() { menu.push(("comment-redact", 3)); }
+    if !reviews.is_empty() { menu.push(("review-comment", 4)); }
+    if !my_review_things.is_empty() { menu.push(("review-thing-redact", 3)); }
+    if !my_revs.is_empty() { menu.push(("revision-redact", 3)); }
+    if delegate { menu.push(("merge", 1)); }
+    let total: u64 = menu.iter().map(|m| m.1).sum();
+    let mut x = r.below(total);
+    let mut choice = menu[0].0;
+    for (name, wgt) in &menu {
+        if x < *wgt { choice = name; break; }
+        x -= wgt;
+    }
+    match choice {
+        "comment" => ("comment".into(), e(p.comment(rev, format!("c{n}"), None, None, vec![], signer))),
+        "comment-redact" => ("comment-redact".into(), e(p.comment_redact(rev, oid_of(r.pick(&my_comments)), signer))),
+        "review" => {
+            let v = if r.bool() { Verdict::Accept } else { Verdict::Reject };
+            ("review".into(), e(p.review(rev, Some(v), Some(format!("s{n}")), vec![], signer).map(|_| oid_of(pid))))
+        }
+        "review-comment" => {
             let rv = ReviewId::from(oid_of(r.pick(&reviews)));
             ("review-comment".into(), e(p.review_comment(rv, format!("rc{n}"), None, None, vec![], signer)))
         }
-    } else if choice < 64 {
-        // redact my review comment / my review
-        let mut mine: Vec<(String, Option<String>)> = vec![];
-        for rv in revv["reviews"].as_object().unwrap().values() {
-            let rid = rv["id"].as_str().unwrap().to_string();
-            if rv["author"]["id"].as_str().unwrap().ends_with(&me) {
-                mine.push((rid.clone(), None));
-            }
-            for (cid, c) in rv["comments"]["comments"].as_object().unwrap() {
-                if !c.is_null() && c["author"] == json!(me) {
-                    mine.push((rid.clone(), Some(cid.clone())));
-                }
-            }
+        "review-thing-redact" => match r.pick(&my_review_things).clone() {
+            (rid, None) => ("review-redact".into(), e(p.redact_review(ReviewId::from(oid_of(&rid)), signer))),
+            (rid, Some(c)) => ("review-comment-redact".into(), e(p.redact_review_comment(ReviewId::from(oid_of(&rid)), oid_of(&c), signer))),
+        },
+        "revision" => ("revision".into(), e(p.update(format!("r{n}"), w.base, w.head, signer).map(|_| oid_of(pid)))),
+        "revision-redact" => ("revision-redact".into(), e(p.redact(RevisionId::from(oid_of(r.pick(&my_revs))), signer))),
+        "lifecycle" => {
+            let l = match r.below(3) { 0 => Lifecycle::Draft, 1 => Lifecycle::Open, _ => Lifecycle::Archived };
+            (format!("lifecycle-{l:?}").to_lowercase(), e(p.lifecycle(l, signer)))
         }
-        if mine.is_empty() {
-            ("comment".into(), e(p.comment(rev, format!("c{n}"), None, None, vec![], signer)))
-        } else {
-            match r.pick(&mine).clone() {
-                (rid, None) => ("review-redact".into(), e(p.redact_review(ReviewId::from(oid_of(&rid)), signer))),
-                (rid, Some(c)) => ("review-comment-redact".into(), e(p.redact_review_comment(ReviewId::from(oid_of(&rid)), oid_of(&c), signer))),
-            }
-        }
-    } else if choice < 76 {
-        ("revision".into(), e(p.update(format!("r{n}"), w.base, w.head, signer).map(|_| git::Oid::from_str(pid).unwrap())))
-    } else if choice < 86 {
-        // redact a non-root revision of mine (redacting the root is refused)
-        let mine: Vec<String> = revs.iter().filter(|x| *x != pid && pv["revisions"][*x]["author"]["id"].as_str().unwrap().ends_with(&me)).cloned().collect();
-        if mine.is_empty() {
-            ("revision".into(), e(p.update(format!("r{n}"), w.base, w.head, signer).map(|_| git::Oid::from_str(pid).unwrap())))
-        } else {
-            ("revision-redact".into(), e(p.redact(RevisionId::from(oid_of(r.pick(&mine))), signer)))
-        }
-    } else if choice < 95 {
-        let l = match r.below(3) { 0 => Lifecycle::Draft, 1 => Lifecycle::Open, _ => Lifecycle::Archived };
-        (format!("lifecycle-{l:?}").to_lowercase(), e(p.lifecycle(l, signer)))
-    } else if delegate {
-        ("merge".into(), e(p.merge(rev, w.head, signer).map(|m| m.entry)))
-    } else {
-        ("edit".into(), e(p.edit::<MockSigner, String>(format!("t{n}"), MergeTarget::Delegates, signer)))
+        "merge" => ("merge".into(), e(p.merge(rev, w.head, signer).map(|m| m.entry))),
+        _ => ("edit".into(), e(p.edit::<MockSigner, String>(format!("t{n}"), MergeTarget::Delegates, signer))),
     }
 }
 
@@ -975,7 +977,7 @@ where
     }
 }
 
-fn one_case(run: &mut Run, w: &World, id: &str, r: &mut Rng, len: u64) {
+fn one_case(run: &mut Run, w: &World, id: &str, r: &mut Rng, len: u64, focus: bool) {
     run.eval();
     let cr = timed("copy-repos", || CaseRepos::new(w));
     let db: StoreWriter = Store::<Write>::memory().unwrap().with_migrations(migrate::ignore).unwrap();
@@ -986,14 +988,18 @@ fn one_case(run: &mut Run, w: &World, id: &str, r: &mut Rng, len: u64) {
         ic: issue::Cache::open(issue::Issues::open(arepo).unwrap(), db.clone()),
         id: issue::Cache::no_cache(arepo).unwrap(),
     };
-    let mut ctx = CaseCtx { w, dict: Dict::default(), steps: vec![], stale: BTreeSet::new(), removed_shared: BTreeSet::new(), n: 0, clock: 0 };
+    let mut ctx = CaseCtx { dict: Dict::default(), steps: vec![], stale: BTreeSet::new(), removed_shared: BTreeSet::new(), n: 0, clock: 0 };
     let mut history: Vec<String> = vec![];
+    let mut focus_patch: Option<String> = None;
     let asig = &w.alice.signer;
     let bsig = &w.bob.signer;
 
     for step_ix in 0..len {
         let (ps, is) = direct_all(&s);
-        let c = r.below(100);
+        let mut c = r.below(100);
+        // focus mode: few objects, many updates of the same patch
+        if focus && !ps.is_empty() && c < 12 && r.chance(3, 4) { c = 20; }
+        if focus && (40..62).contains(&c) && r.chance(2, 3) { c = if r.bool() { 20 } else { 90 }; }
         let mut step: Option<Step> = None;
         let mut touched: Option<(Kind, String)> = None;
         let n = ctx.tick();
@@ -1020,7 +1026,11 @@ fn one_case(run: &mut Run, w: &World, id: &str, r: &mut Rng, len: u64) {
             }
         } else if c < 40 {
             // alice acts on a patch through the cache (PatchMut is loaded from the cache)
-            let (pid, pv) = pick_patch(r, &ps).unwrap().clone();
+            let (pid, pv) = match (&focus_patch, focus && r.chance(3, 4)) {
+                (Some(f), true) if ps.iter().any(|p| &p.0 == f) => ps.iter().find(|p| &p.0 == f).unwrap().clone(),
+                _ => pick_patch(r, &ps).unwrap().clone(),
+            };
+            focus_patch = Some(pid.clone());
             match s.pc.get_mut(&ObjectId::from(oid_of(&pid))) {
                 Ok(mut pm) => {
                     let (name, res) = patch_action(r, n, &pid, &pv, &mut pm, asig, w, true);
@@ -1103,6 +1113,26 @@ fn one_case(run: &mut Run, w: &World, id: &str, r: &mut Rng, len: u64) {
                     Err(e) => { run.tally("op-error:remove"); history.push(format!("alice: remove {oid} failed: {e}")); }
                 }
             }
+        } else if c < 75 && r.chance(1, 3) && !(ps.is_empty() && is.is_empty()) {
+            // Cache::write(id): re-read one object from the repository into the cache
+            let kind = if (r.bool() && !ps.is_empty()) || is.is_empty() { Kind::P } else { Kind::I };
+            let pool = if kind == Kind::P { &ps } else { &is };
+            let (oid, v) = pick_patch(r, pool).unwrap().clone();
+            let o = ObjectId::from(oid_of(&oid));
+            let res = match kind {
+                Kind::P => s.pc.write(&o).map_err(|e| e.to_string()),
+                Kind::I => s.ic.write(&o).map_err(|e| e.to_string()),
+            };
+            match res {
+                Ok(()) => {
+                    history.push(format!("alice: write {kind:?} {oid}"));
+                    run.tally("op:write");
+                    let oi = ctx.dict.obj_of(kind, &v);
+                    step = Some(Step::Put(kind, oid.clone(), oi));
+                    touched = Some((kind, oid));
+                }
+                Err(e) => { run.tally("op-error:write"); history.push(format!("alice: write {oid} failed: {e}")); }
+            }
         } else if c < 75 {
             let kind = if r.bool() { Kind::P } else { Kind::I };
             let res = match kind {
@@ -1131,13 +1161,18 @@ fn one_case(run: &mut Run, w: &World, id: &str, r: &mut Rng, len: u64) {
                     let bps: Vec<(String, Value)> = bp.list().unwrap().filter_map(|r| r.ok()).map(|(i, p)| (i.to_string(), json!(p))).collect();
                     let bis: Vec<(String, Value)> = bi.list().unwrap().filter_map(|r| r.ok()).map(|(i, p)| (i.to_string(), json!(p))).collect();
                     let c = r.below(100);
+                    let mut c = c;
+                    if focus && !bps.is_empty() && r.chance(3, 5) { c = 20; }
                     if c < 15 || (c < 50 && bps.is_empty()) {
                         match bp.create(format!("bt{n}"), format!("bd{n}"), MergeTarget::Delegates, w.base, w.head, &[], bsig).map(|p| p.id) {
                             Ok(pid) => { run.tally("bob-op:patch-create"); history.push(format!("bob: patch create {pid}")); }
                             Err(e) => { run.tally("bob-op-error:patch-create"); history.push(format!("bob: patch create failed: {e}")); }
                         }
                     } else if c < 50 {
-                        let (pid, pv) = r.pick(&bps).clone();
+                        let (pid, pv) = match (&focus_patch, focus && r.chance(3, 4)) {
+                            (Some(f), true) if bps.iter().any(|p| &p.0 == f) => bps.iter().find(|p| &p.0 == f).unwrap().clone(),
+                            _ => r.pick(&bps).clone(),
+                        };
                         let mut pm = bp.get_mut(&ObjectId::from(oid_of(&pid))).unwrap();
                         let (name, res) = patch_action(r, n, &pid, &pv, &mut pm, bsig, w, false);
                         match res {
@@ -1264,7 +1299,7 @@ fn one_case(run: &mut Run, w: &World, id: &str, r: &mut Rng, len: u64) {
     let obs = format!("mkObs [{}] {} {}", obss.join("; "), render(&fin[0], &ranks), render(&fin[1], &ranks));
     run.case(id, input, obs);
     if ctx.steps.len() >= 3 {
-        run.nontrivial(history.join("|").replace(|c: char| c.is_ascii_hexdigit() && false, ""));
+        run.nontrivial(history.join("|"));
     }
     run.sample(json!({"case_id": id, "history": history}));
 }
@@ -1280,20 +1315,21 @@ fn main() {
          (get, list, list_by_status, counts, find_by_revision with revision / redacted / comment / review / stale / unknown ids). \
          Non-trivial = history with at least 3 effective steps; distinct by the op history.",
     );
-    run.shard_size(12);
+    run.shard_size(40);
     let seed = run.args.seed;
-    let n = run.args.count(60, 600);
+    let n = run.args.count(25, 160);
     let w = World::new();
     for i in 0..n {
-        for stream in [0u64, 1u64] {
+        for stream in [0u64, 1u64, 2u64] {
             let id = format!("{}:{}", stream, i);
             if !run.args.wants(&id) {
                 continue;
             }
             let mut r = Rng::for_case(seed, stream, i);
-            // stream 0: short histories dominated by a single object; stream 1: longer mixed histories
-            let len = if stream == 0 { 4 + r.below(5) } else { 9 + r.below(10) };
-            one_case(&mut run, &w, &id, &mut r, len);
+            // stream 0: short histories; stream 1: longer mixed histories; stream 2: long histories
+            // focused on one patch (many revisions / comments / reviews / redactions on it)
+            let len = match stream { 0 => 4 + r.below(5), 1 => 9 + r.below(10), _ => 12 + r.below(10) };
+            one_case(&mut run, &w, &id, &mut r, len, stream == 2);
         }
     }
     if std::env::var("HW_TIMES").is_ok() {
